@@ -57,6 +57,7 @@ func run(args []string) {
 	mergefull := fs.Bool("merge", false, "merge differing states at equal configurations under fresh selector variables (symbolic schedule)")
 	races := fs.String("races", "refine", "data races: refine (promote racy accesses to scheduling points and re-run) | violation | ignore")
 	nolm := fs.Bool("no-release-merge", false, "keep a scheduling point before Unlock/RUnlock/WaitGroup.Add (disable the left-mover reduction)")
+	workers := fs.Int("workers", 4, "goroutines expanding one rank level of the configuration graph in parallel")
 	nomerge := fs.Bool("nomerge", false, "do not merge states (debugging)")
 	nofeas := fs.Bool("nofeas", false, "skip feasibility checks at forks")
 	unwind := fs.Int("unwind", 300, "loop unwinding bound per frame")
@@ -115,6 +116,7 @@ func run(args []string) {
 			e.Promote(promoted)
 			e.TraceExec = *trace
 			e.NoMerge = *nomerge
+		e.Workers = *workers
 		e.MergeReleases = !*nolm
 			e.MergeFull = *mergefull
 			e.FeasCheck = !*nofeas
